@@ -12,7 +12,11 @@
     conntrack/conntrack.go           closeListener.Close:  err := c.close(); c.once.Do(c.onClose)
     net.go / net_metrics.go          Listener.Accept: accepted++, active++, OnClose = active--
                                      Dialer.DialContext: error → errors++ ; ok → dialed++, active++, OnClose = active--
-    conntrack conn.Read/Write/ReadFrom   rx += n / tx += n
+    conntrack conn.Read/Write/ReadFrom   n, err := c.Conn.Read/Write/ReadFrom(…); rx += n / tx += n  — whatever `err`
+                                     (a write cut short by a deadline or a reset still moved `n` bytes)
+    closeListener.close              the wrapped connection's own `Close`: returns nil, net.ErrClosed (closed
+                                     before — by an earlier call, or underneath the tracker by the stack itself:
+                                     proxyproto.Conn on the header timeout) or any other error, every time it is called
 
   The control flow is a path grammar: one `Path` per way a single iteration of `handle` can
   end; `Path.events` is computed by functions that mirror `writeResponse`,
@@ -307,6 +311,67 @@ def CloseSt.run (once : Bool) (s : CloseSt) (sched : List Nat) : CloseSt :=
 def CloseSt.doneCount (s : CloseSt) : Nat :=
   ((List.range s.n).filter fun j => s.pcs j = .done).length
 
+/-! ## The same machine over a wrapped `Close` that returns anything
+
+`closeListener.Close` is `err := c.close(); c.once.Do(c.onClose); return err`: the result of the wrapped
+`Close` is passed on and plays no part in the decision.  The machine below carries that result along
+(what each goroutine's `c.close()` returned; `res k` = what the `k`-th call of the wrapped `Close`
+returns — nil every time for a net.Pipe, net.ErrClosed from the first call on when the stack closed
+the socket underneath the tracker, any error for a custom connection) so that the exactly-once
+theorem can be stated for every such `res`, and so that the guard that looks at the result instead
+of keeping a `sync.Once` can be shown to be wrong in both directions. -/
+
+/-- what the wrapped connection's `Close` returned -/
+inductive CloseResult
+  | nil         -- closed by this call — or a connection whose `Close` returns nil every time (net.Pipe)
+  | errClosed   -- net.ErrClosed: closed before, by an earlier call or by the stack underneath the tracker
+  | other       -- any other error
+  deriving DecidableEq, Repr, Inhabited
+
+/-- how the callback is guarded -/
+inductive Guard
+  | once           -- the code: `c.once.Do(c.onClose)`
+  | none           -- no guard: `c.onClose()`
+  | notErrClosed   -- "only the call that really closed it reports": `if !errors.Is(err, net.ErrClosed) { c.onClose() }`
+  deriving DecidableEq, Repr
+
+/-- `CloseSt` plus what `c.close()` returned to each goroutine -/
+structure RCloseSt where
+  base : CloseSt
+  got : Nat → CloseResult
+
+def RCloseSt.init (n : Nat) : RCloseSt := ⟨CloseSt.init n, fun _ => .nil⟩
+
+/-- does the step of goroutine `j` run the callback? -/
+def RCloseSt.fires (g : Guard) (s : RCloseSt) (j : Nat) : Bool :=
+  decide (j < s.base.n) && decide (s.base.pcs j = .closed) &&
+    (match g with
+     | .once => !s.base.fired
+     | .none => true
+     | .notErrClosed => decide (s.got j ≠ .errClosed))
+
+/-- goroutine `j` takes its next step; its `c.close()` is the `s.base.closes`-th call of the wrapped
+    `Close` and returns `res s.base.closes` -/
+def RCloseSt.step (g : Guard) (res : Nat → CloseResult) (s : RCloseSt) (j : Nat) : RCloseSt :=
+  if j < s.base.n then
+    match s.base.pcs j with
+    | .start =>
+      { base := { s.base with pcs := setPc s.base.pcs j .closed, closes := s.base.closes + 1 }
+        got := fun i => if i = j then res s.base.closes else s.got i }
+    | .closed =>
+      if s.fires g j then
+        { s with base := { s.base with pcs := setPc s.base.pcs j .done, fired := true,
+                                       callbacks := s.base.callbacks + 1 } }
+      else { s with base := { s.base with pcs := setPc s.base.pcs j .done } }
+    | .done => s
+  else s
+
+def RCloseSt.run (g : Guard) (res : Nat → CloseResult) (s : RCloseSt) (sched : List Nat) : RCloseSt :=
+  sched.foldl (RCloseSt.step g res) s
+
+/-- a result script: the listed results in call order, `dflt` for every later call -/
+def resOf (l : List CloseResult) (dflt : CloseResult) : Nat → CloseResult := fun k => l.getD k dflt
+
 /-! ## Listener / dialer accounting on top of it -/
 
 /-- `forwarder.Listener` (and, per host label, `forwarder.Dialer`) -/
@@ -349,10 +414,71 @@ def LSt.closedCount (s : LSt) : Nat := (s.conns.map fun c => c.callbacks).sum
 /-- every connection has been closed by someone -/
 def LSt.allGone (s : LSt) : Bool := s.conns.all fun c => decide (0 < c.doneCount)
 
+/-! ## Listener / dialer accounting over connections of any kind -/
+
+/-- a tracked connection of any kind: the close machine and the result script of its wrapped `Close` -/
+structure RConn where
+  st : RCloseSt
+  res : Nat → CloseResult
+
+structure RLSt where
+  accepted : Nat
+  errors : Nat
+  active : Int
+  conns : List RConn
+
+def RLSt.init : RLSt := ⟨0, 0, 0, []⟩
+
+inductive ROp
+  | accept (callers : Nat) (res : Nat → CloseResult)   -- Accept/Dial/Build succeeded on a connection whose `Close` behaves like `res`
+  | acceptError
+  | close (i j : Nat)
+
+def rmodifyAt (f : RConn → RConn) : List RConn → Nat → List RConn
+  | [], _ => []
+  | c :: cs, 0 => f c :: cs
+  | c :: cs, i + 1 => c :: rmodifyAt f cs i
+
+def RLSt.step (g : Guard) (s : RLSt) : ROp → RLSt
+  | .accept n res =>
+    { s with accepted := s.accepted + 1, active := s.active + 1, conns := s.conns ++ [⟨RCloseSt.init n, res⟩] }
+  | .acceptError => { s with errors := s.errors + 1 }
+  | .close i j =>
+    match s.conns[i]? with
+    | none => s
+    | some c =>
+      { s with conns := rmodifyAt (fun c => { c with st := c.st.step g c.res j }) s.conns i
+               active := if c.st.fires g j then s.active - 1 else s.active }
+
+def RLSt.run (g : Guard) (s : RLSt) (ops : List ROp) : RLSt := ops.foldl (RLSt.step g) s
+
+def RLSt.closedCount (s : RLSt) : Nat := (s.conns.map fun c => c.st.base.callbacks).sum
+
+def RLSt.allGone (s : RLSt) : Bool := s.conns.all fun c => decide (0 < c.st.base.doneCount)
+
+/-- forgetting the results -/
+def ROp.proj : ROp → LOp
+  | .accept n _ => .accept n
+  | .acceptError => .acceptError
+  | .close i j => .close i j
+
+def RLSt.proj (s : RLSt) : LSt := ⟨s.accepted, s.errors, s.active, s.conns.map fun c => c.st.base⟩
+
 /-! ## Byte counters of a tracked connection -/
 
+/-- which wrapped call -/
+inductive IoKind
+  | read | write | readFrom
+  deriving DecidableEq, Repr
+
+/-- one call on the tracked connection.  `read n`/`write n`/`readFrom n` are calls that moved `n` bytes;
+    `io k requested done err` is the general form: the caller asked for `requested` bytes (`len(p)`, or
+    what the source of `ReadFrom` holds), the wrapped connection reported `done` bytes moved and
+    `err` = it also returned an error (deadline exceeded against a peer that does not read, a reset in
+    the middle of a large write, EOF together with the last bytes, …) -/
 inductive IoOp
   | read (n : Nat) | write (n : Nat) | readFrom (n : Nat)
+  | io (k : IoKind) (requested done : Nat) (err : Bool)
   deriving DecidableEq, Repr
 
 structure Observer where
@@ -360,18 +486,34 @@ structure Observer where
   tx : Nat
   deriving DecidableEq, Repr
 
+/-- `n, err = c.Conn.X(…); c.o.addRx/addTx(n); return` — the count is added before looking at `err` -/
 def Observer.apply (o : Observer) : IoOp → Observer
   | .read n => { o with rx := o.rx + n }
   | .write n => { o with tx := o.tx + n }
   | .readFrom n => { o with tx := o.tx + n }
+  | .io .read _ done _ => { o with rx := o.rx + done }
+  | .io .write _ done _ => { o with tx := o.tx + done }
+  | .io .readFrom _ done _ => { o with tx := o.tx + done }
 
 def Observer.run (o : Observer) (ops : List IoOp) : Observer := ops.foldl Observer.apply o
 
-def bytesIn (ops : List IoOp) : Nat :=
-  (ops.map fun | .read n => n | _ => 0).sum
+/-- the variant that returns early on error and credits a successful `Write` with `len(p)` — kept to
+    show what counting `n` before looking at `err` is needed for -/
+def Observer.applyOkOnly (o : Observer) : IoOp → Observer
+  | .io .read _ done _ => { o with rx := o.rx + done }
+  | .io .write requested _ err => if err then o else { o with tx := o.tx + requested }
+  | .io .readFrom _ done err => if err then o else { o with tx := o.tx + done }
+  | op => o.apply op
 
+def Observer.runOkOnly (o : Observer) (ops : List IoOp) : Observer := ops.foldl Observer.applyOkOnly o
+
+/-- bytes the wrapped connection reported as received -/
+def bytesIn (ops : List IoOp) : Nat :=
+  (ops.map fun | .read n => n | .io .read _ d _ => d | _ => 0).sum
+
+/-- bytes the wrapped connection reported as sent -/
 def bytesOut (ops : List IoOp) : Nat :=
-  (ops.map fun | .read _ => 0 | .write n => n | .readFrom n => n).sum
+  (ops.map fun | .write n => n | .readFrom n => n | .io .write _ d _ => d | .io .readFrom _ d _ => d | _ => 0).sum
 
 /-! ## Decidable forms used by the driver (`holds`) -/
 
@@ -383,6 +525,14 @@ def holdsQuiescent (requests : Nat) (inflight : List (Method × Int)) (total : L
 /-- connection accounting at a quiescent point -/
 def holdsConns (accepted closedOnce : Nat) (active : Int) : Bool :=
   active == (accepted : Int) - (closedOnce : Int) && 0 ≤ active
+
+/-- the close clause on what the implementation did: `callbacks` runs of the callback after `returned`
+    `Close` calls have returned -/
+def holdsClose (callbacks returned : Nat) : Bool :=
+  callbacks == (if 0 < returned then 1 else 0)
+
+/-- the byte clause: the observer against the bytes the wrapped connection moved -/
+def holdsBytes (rx tx movedIn movedOut : Nat) : Bool := rx == movedIn && tx == movedOut
 
 end C13
 end FwdVerif
